@@ -51,7 +51,11 @@ def optHdr : Option Hdr → String
 def hdrlst (hl : HdrLst) : String :=
   let stored := (List.range (min hl.n hl.hdrs.size)).map (fun k => optHdr hl.hdrs[k]?)
   let firsts := (List.range 13).map (fun k => optHdr (hl.getHdr (k + 1)))
-  s!"pf={hl.pflags} N={hl.n} cap={hl.hdrs.size} hdrs=[{" ".intercalate stored}] first=[{" ".intercalate firsts}]"
+  -- the exported flag predicates: Test(t) for t = 0..14, Any(From, To), AllSet(From, To, Call-ID, CSeq)
+  let tf := String.ofList ((List.range 15).map (fun t => if hl.pflags.testBit t then '1' else '0'))
+  let any := hl.pflags.testBit 1 || hl.pflags.testBit 2
+  let all := hl.pflags.testBit 1 && hl.pflags.testBit 2 && hl.pflags.testBit 3 && hl.pflags.testBit 4
+  s!"pf={hl.pflags} tf={tf} any={b01 any} all={b01 all} N={hl.n} cap={hl.hdrs.size} hdrs=[{" ".intercalate stored}] first=[{" ".intercalate firsts}]"
 
 def hdrvals (hv : PHdrVals) : String :=
   let me := hv.maxExpires
